@@ -127,6 +127,7 @@ struct DenSys {
   int U;                                            // at most U updates per history
   int M;                                            // at most M non-empty merges per history
   int Um;                                           // merges enabled only while at most Um updates have been applied
+  std::string prefix;                               // the first updates are forced to these grid indices (splits one space over several tasks)
   std::vector<Operand> menu;                        // same-dimension operands
   std::vector<Operand> wrong;                       // wrong-dimension operands: [0] non-empty, [1] empty
   std::string nm;
@@ -241,8 +242,24 @@ struct DenSys {
     if (t && t->runaway) throw;   // the tape's own runaway guard: let the engine see it
     if (c) c->fail("unexpected-exception", std::string("valid operation threw: ") + e.what());
   }
+  bool apply_wrong_update(State& s, size_t op, Ctx* c) {
+    const uint32_t d = op == op_wrong_upd() ? dim + 1 : dim - 1;
+    const std::string before = c ? canon(s) : std::string();
+    bool threw = false;
+    std::vector<T> p = point(d, 1);
+    try { if (d > dim) s.sk->update(p); else s.sk->update(std::move(p)); } catch (const std::exception&) { threw = true; }
+    after_op(s);
+    s.last = "wrong-upd";
+    if (c) {
+      c->ok("wrong-dim-update-refused", threw, "update with a point of dimension " + str(d) + " into a sketch of dimension " + str(dim) + " did not throw");
+      c->ok("wrong-dim-update-state-unchanged", canon(s) == before, "state changed by a refused update: " + before + " -> " + canon(s));
+      c->rep.outcome(std::string("wrong-upd|") + (threw ? "threw" : "accepted"));
+    }
+    return true;
+  }
   bool apply(State& s, size_t op, Ctx* c) {
     fix_tape(cur_tape());
+    if ((size_t)s.upd < prefix.size() && !(op < (size_t)P && (char)('0' + op) == prefix[(size_t)s.upd])) return op >= (size_t)P && op < op_first_merge() ? apply_wrong_update(s, op, c) : false;
     if (op < (size_t)P) {
       if (s.upd >= U) return false;
       const uint64_t n0 = s.sk->get_n();
@@ -253,21 +270,7 @@ struct DenSys {
       if (c) c->eq("update-adds-1-to-n", s.sk->get_n(), n0 + 1);
       return true;
     }
-    if (op < op_first_merge()) {   // wrong-dimension update
-      const uint32_t d = op == op_wrong_upd() ? dim + 1 : dim - 1;
-      const std::string before = c ? canon(s) : std::string();
-      bool threw = false;
-      std::vector<T> p = point(d, 1);
-      try { if (d > dim) s.sk->update(p); else s.sk->update(std::move(p)); } catch (const std::exception&) { threw = true; }
-      after_op(s);
-      s.last = "wrong-upd";
-      if (c) {
-        c->ok("wrong-dim-update-refused", threw, "update with a point of dimension " + str(d) + " into a sketch of dimension " + str(dim) + " did not throw");
-        c->ok("wrong-dim-update-state-unchanged", canon(s) == before, "state changed by a refused update: " + before + " -> " + canon(s));
-        c->rep.outcome(std::string("wrong-upd|") + (threw ? "threw" : "accepted"));
-      }
-      return true;
-    }
+    if (op < op_first_merge()) return apply_wrong_update(s, op, c);
     const bool is_wrong = op >= op_first_wrong_merge();
     const size_t rel = op - (is_wrong ? op_first_wrong_merge() : op_first_merge());
     const Operand& o = is_wrong ? wrong[rel / 3] : menu[rel / 3];
@@ -514,13 +517,15 @@ static void e3_expectation(Sys sys, const std::vector<size_t>& ops, Report& rep,
 }
 
 // ---------------------------------------------------------------------------------------------------------------
-struct Scn { int k; int dim; int kern; /*0 gauss 1 l1 2 gauss-float*/ int gridset; int P; int U; int M; int Um; size_t max_outcomes; int raws; };
+struct Scn { int k; int dim; int kern; /*0 gauss 1 l1 2 gauss-float*/ int gridset; int P; int U; int M; int Um; size_t max_outcomes; int raws; const char* pre; };
+static std::string scn_suffix(const Scn& sc) { return sc.pre && *sc.pre ? std::string("/pre") + sc.pre : std::string(); }
 
 template<class T, class Kern>
 static DenSys<T, Kern> make_sys(const Scn& sc, unsigned setup_grid) {
   typedef DenSys<T, Kern> S;
   S sys; sys.k = (uint16_t)sc.k; sys.dim = (uint32_t)sc.dim; sys.gridset = sc.gridset; sys.P = sc.P; sys.U = sc.U; sys.M = sc.M; sys.Um = sc.Um; sys.init_cache();
-  sys.nm = "bfs/k" + str(sc.k) + "/d" + str(sc.dim) + "/" + KInfo<Kern>::name() + "-" + TInfo<T>::name() + "/grid" + str(sc.gridset) + "/P" + str(sc.P) + "/U" + str(sc.U) + "/M" + str(sc.M) + (sc.M ? "@" + str(sc.Um) : std::string());
+  sys.nm = "bfs/k" + str(sc.k) + "/d" + str(sc.dim) + "/" + KInfo<Kern>::name() + "-" + TInfo<T>::name() + "/grid" + str(sc.gridset) + "/P" + str(sc.P) + "/U" + str(sc.U) + "/M" + str(sc.M) + (sc.M ? "@" + str(sc.Um) : std::string()) + scn_suffix(sc);
+  sys.prefix = sc.pre ? sc.pre : "";
   const int P = sc.P;
   if (sc.M > 0) {
     std::vector<int> none, under, comp, other;
@@ -564,7 +569,7 @@ template<class T, class Kern>
 static void add_bfs_task(std::vector<Task>& tasks, const Scn& sc, const Config& cfg) {
   // the scenario name is needed before the (forked) task builds the system: build a name-only copy cheaply
   Scn nsc = sc;
-  std::string nm = "bfs/k" + str(sc.k) + "/d" + str(sc.dim) + "/" + KInfo<Kern>::name() + "-" + TInfo<T>::name() + "/grid" + str(sc.gridset) + "/P" + str(sc.P) + "/U" + str(sc.U) + "/M" + str(sc.M) + (sc.M ? "@" + str(sc.Um) : std::string());
+  std::string nm = "bfs/k" + str(sc.k) + "/d" + str(sc.dim) + "/" + KInfo<Kern>::name() + "-" + TInfo<T>::name() + "/grid" + str(sc.gridset) + "/P" + str(sc.P) + "/U" + str(sc.U) + "/M" + str(sc.M) + (sc.M ? "@" + str(sc.Um) : std::string()) + scn_suffix(sc);
   Task t; t.name = nm;
   t.fn = [nsc, &cfg](Report& rep) {
     const unsigned grid = (unsigned)(4 * max_range_for_raw_run((size_t)nsc.raws));
@@ -599,25 +604,38 @@ int main(int argc, char** argv) {
   // name:            k dim kern gridset P U M Um max_outcomes raws
   std::vector<Scn> scns;
   if (q) {
+    // sized for <= 0.9M history replays per task (about 20 s each on an idle core)
     const Scn s[] = {
-      {2, 1, 0, 0, 4, 7, 0, 0, 0, 1}, {2, 2, 1, 0, 4, 7, 0, 0, 0, 1},
-      {2, 2, 0, 0, 3, 5, 1, 3, 8, 2}, {2, 1, 1, 0, 3, 5, 1, 3, 8, 2},
-      {3, 1, 1, 0, 3, 9, 0, 0, 0, 2}, {3, 2, 0, 0, 3, 9, 0, 0, 0, 2},
-      {3, 1, 0, 0, 2, 6, 1, 4, 8, 2},
-      {4, 1, 0, 0, 2, 10, 0, 0, 0, 2}, {4, 2, 1, 0, 2, 10, 0, 0, 0, 2},
+      {2, 1, 0, 0, 3, 7, 0, 0, 0, 1}, {2, 2, 1, 0, 3, 7, 0, 0, 0, 1}, {2, 1, 1, 0, 4, 5, 0, 0, 0, 1}, {2, 2, 0, 0, 4, 5, 0, 0, 0, 1},
+      {2, 1, 0, 0, 2, 4, 1, 3, 2, 2}, {2, 2, 1, 0, 2, 4, 1, 3, 2, 2},
+      {3, 1, 1, 0, 2, 8, 0, 0, 0, 2}, {3, 2, 0, 0, 2, 8, 0, 0, 0, 2},
+      {3, 1, 0, 0, 2, 4, 1, 3, 2, 2},
+      {4, 1, 0, 0, 2, 10, 0, 0, 0, 2}, {4, 2, 1, 0, 2, 10, 0, 0, 0, 2}, {4, 1, 1, 0, 3, 7, 0, 0, 0, 2},
+      {4, 2, 0, 0, 2, 5, 1, 2, 2, 2},
       {2, 1, 2, 0, 3, 6, 0, 0, 0, 1},
     };
     scns.assign(s, s + sizeof s / sizeof s[0]);
   } else {
     const Scn s[] = {
+      // k = 2: every sequence of <= 2k+3 = 7 updates over the 4-point grid, both dimensions, both kernels; general-position grid
       {2, 1, 0, 0, 4, 7, 0, 0, 0, 1}, {2, 2, 0, 0, 4, 7, 0, 0, 0, 1}, {2, 1, 1, 0, 4, 7, 0, 0, 0, 1}, {2, 2, 1, 0, 4, 7, 0, 0, 0, 1},
       {2, 1, 0, 1, 4, 7, 0, 0, 0, 1},
-      {2, 1, 0, 0, 4, 6, 2, 4, 8, 2}, {2, 2, 1, 0, 4, 6, 2, 4, 8, 2}, {2, 2, 0, 0, 3, 6, 2, 4, 8, 2}, {2, 1, 1, 0, 3, 6, 2, 4, 8, 2},
-      {3, 1, 0, 0, 4, 9, 0, 0, 0, 2}, {3, 2, 0, 0, 4, 9, 0, 0, 0, 2}, {3, 1, 1, 0, 4, 9, 0, 0, 0, 2}, {3, 2, 1, 0, 4, 9, 0, 0, 0, 2},
-      {3, 1, 0, 0, 3, 7, 1, 5, 8, 3}, {3, 2, 1, 0, 3, 7, 1, 5, 8, 3},
-      {4, 1, 0, 0, 3, 11, 0, 0, 0, 3}, {4, 2, 1, 0, 3, 11, 0, 0, 0, 3}, {4, 2, 0, 0, 2, 11, 0, 0, 0, 3}, {4, 1, 1, 0, 2, 11, 0, 0, 0, 3},
-      {4, 1, 0, 0, 2, 8, 1, 5, 6, 3},
-      {2, 1, 2, 0, 4, 7, 0, 0, 0, 1}, {3, 2, 2, 0, 3, 8, 0, 0, 0, 2},
+      // k = 2 with one merge (full operand menu, every compaction outcome) after <= 3 updates, <= 5 updates in total; two merges
+      {2, 1, 0, 0, 3, 5, 1, 3, 99, 2}, {2, 2, 1, 0, 3, 5, 1, 3, 99, 2},
+      {2, 2, 0, 0, 2, 4, 2, 2, 2, 2},
+      // k = 3: 4 points to 7, 3 points to 8, 2 points to 2k+3 = 9 updates
+      {3, 1, 0, 0, 4, 7, 0, 0, 0, 2}, {3, 2, 1, 0, 4, 7, 0, 0, 0, 2},
+      {3, 1, 1, 0, 3, 8, 0, 0, 0, 2}, {3, 2, 0, 0, 3, 8, 0, 0, 0, 2},
+      {3, 1, 0, 0, 2, 9, 0, 0, 0, 2}, {3, 2, 1, 0, 2, 9, 0, 0, 0, 2},
+      {3, 1, 0, 0, 3, 5, 1, 3, 99, 2}, {3, 2, 1, 0, 2, 6, 1, 4, 99, 2},
+      // k = 4: 4 points to 8, 3 points to 9, 2 points to 2k+3 = 11 updates (split over four tasks by the first two points)
+      {4, 1, 0, 0, 4, 8, 0, 0, 0, 2}, {4, 2, 1, 0, 4, 8, 0, 0, 0, 2},
+      {4, 1, 1, 0, 3, 9, 0, 0, 0, 2}, {4, 2, 0, 0, 3, 9, 0, 0, 0, 2},
+      {4, 1, 0, 0, 2, 11, 0, 0, 0, 3, "00"}, {4, 1, 0, 0, 2, 11, 0, 0, 0, 3, "01"}, {4, 1, 0, 0, 2, 11, 0, 0, 0, 3, "10"}, {4, 1, 0, 0, 2, 11, 0, 0, 0, 3, "11"},
+      {4, 2, 1, 0, 2, 10, 0, 0, 0, 2},
+      {4, 1, 0, 0, 2, 6, 1, 2, 4, 2}, {4, 2, 1, 0, 2, 6, 1, 2, 4, 2},
+      // float
+      {2, 1, 2, 0, 4, 7, 0, 0, 0, 1}, {3, 2, 2, 0, 2, 9, 0, 0, 0, 2},
     };
     scns.assign(s, s + sizeof s / sizeof s[0]);
   }
@@ -630,7 +648,7 @@ int main(int argc, char** argv) {
     Task t; t.name = "e3/k" + str(ek) + "/d" + str(ed) + (eg ? "/tie-free" : "/ties");
     const std::string tname = t.name;
     t.fn = [ek, ed, eg, tname, &cfg](Report& rep) {
-      Scn sc = {ek, ed, 0, eg, eg ? 7 : 4, 16, 0, 0, 0, 2};
+      Scn sc = {ek, ed, 0, eg, eg ? 7 : 4, 16, 0, 0, 0, 2, ""};
       typedef DenSys<double, gaussian_kernel<double> > S;
       S sys = make_sys<double, gaussian_kernel<double> >(sc, 96);
       sys.nm = tname;
